@@ -4,8 +4,11 @@ import (
 	"encoding/json"
 	"fmt"
 	"math/rand"
+	"net/url"
+	"sort"
 	"strings"
 
+	ledger "github.com/formancehq/ledger/internal"
 	"github.com/formancehq/ledger/pkg/features"
 
 	"github.com/formancehq/ledger/verifharness/core"
@@ -16,7 +19,7 @@ import (
 func init() {
 	core.Register(&core.Check{
 		ID: "C11", Level: "exploration",
-		Rule: "random source histories (all write kinds, adversarial strings, amount pool, back-dated timestamps, random feature sets) -> POST /logs/export bytes -> POST /logs/import on fresh ledgers with the same features (real handlers, real Log JSON codec, real state tracker) -> committed snapshots compared field by field -> post-import writes whose FIRST one is drawn from each path in turn {controller call, HTTP v2 create, HTTP v1 create, non-atomic bulk, atomic bulk} followed by random further writes: all must succeed and continue the id sequences. Distinct = (history shape, first-write path); non-trivial = source history committed >=3 logs of >=2 types",
+		Rule: "random source histories (all write kinds, adversarial strings, amount pool, back-dated timestamps, random feature sets) interleaved with ID-BURNING operations at the beginning, in the middle and at the end (dry runs, failed atomic bulks, writes whose COMMIT fails, reference conflicts after id allocation), so that log / transaction ids have holes and need not start at 1 -> POST /logs/export bytes -> POST /logs/import on fresh ledgers with the same features (real handlers, real Log JSON codec, real state tracker) -> committed snapshots compared field by field, export of the copy compared with the export of the source -> post-import continuation: the SAME writes are applied to the copy and to the source, the FIRST one drawn in turn from every (write kind x path) pair {create postings, create script, revert of an imported transaction, save/delete transaction metadata, save/delete account metadata, schema insert, dry-run create/revert, failing create/revert} x {controller call, HTTP v2, HTTP v1, non-atomic bulk, atomic bulk}, followed by random further writes (incl. reference conflicts and idempotent replays of imported keys): outcomes must coincide, new ids must continue the imported ones exactly as they continue the source's sequences, reduced final states must coincide -> the copy's export is imported once more (second generation) and compared. Distinct = (history shape, first-write kind, path); non-trivial = source history committed >=3 logs of >=2 types",
 		Assumptions: []string{seqAssume, "sequence semantics (nextval not rolled back, setval(max(id))) as modelled in memstore"},
 		Run:  runC11,
 	})
@@ -88,6 +91,10 @@ func diffSnap(a, b *memstore.Snap) []string {
 				d = append(d, fmt.Sprintf("log-header: %d: %+v vs %+v", x.ID, x, y))
 				break
 			}
+			if x.IKHash != y.IKHash {
+				d = append(d, fmt.Sprintf("log-idempotency-hash: %d: %q vs %q", x.ID, x.IKHash, y.IKHash))
+				break
+			}
 			var dx, dy any
 			_ = json.Unmarshal([]byte(x.Data), &dx)
 			_ = json.Unmarshal([]byte(y.Data), &dy)
@@ -105,119 +112,743 @@ func diffSnap(a, b *memstore.Snap) []string {
 	return d
 }
 
-var c11Paths = []string{"controller", "http-v2", "http-v1", "bulk", "bulk-atomic"}
+const c11KnownFirstUsage = "account-first-usage:metadata-saved-before-first-usage"
 
-// c11Write performs one simple always-valid write through the given path; returns (txID, logID, error text).
-func c11Write(e *sim.Env, name, path string, n int) (uint64, string) {
-	body := fmt.Sprintf(`{"postings":[{"source":"world","destination":"post:import","asset":"USD","amount":%d}]}`, n)
-	switch path {
-	case "controller":
-		out := e.Apply(name, sim.Op{Kind: "postings", Postings: []sim.P{{Source: "world", Destination: "post:import", Asset: "USD", Amount: fmt.Sprint(n)}}})
-		if out.Err != nil {
-			return 0, out.Err.Error()
-		}
-		return *out.Created.Transaction.ID, ""
-	case "http-v2", "http-v1":
-		p := "/v2/" + name + "/transactions"
-		if path == "http-v1" {
-			p = "/" + name + "/transactions"
-		}
-		r := e.Do("POST", p, []byte(body), nil)
-		if r.Status != 200 {
-			return 0, fmt.Sprintf("status %d: %s", r.Status, r.Body)
-		}
-		var v struct {
-			Data json.RawMessage `json:"data"`
-		}
-		_ = json.Unmarshal(r.Body, &v)
-		var one struct {
-			ID uint64 `json:"id"`
-		}
-		if path == "http-v1" {
-			var arr []struct {
-				ID uint64 `json:"id"`
+// ---------------------------------------------------------------------------
+// source histories with burnt ids
+
+type c11Step struct {
+	Note    string  `json:"note"`
+	Op      *sim.Op `json:"op,omitempty"`
+	Outcome string  `json:"outcome"`
+}
+
+type c11Source struct {
+	e     *sim.Env
+	rng   *rand.Rand
+	st    *sim.GenState
+	Steps []c11Step
+	types map[string]bool
+	refs  []string
+	// committed, non-dry-run source ops carrying an idempotency key
+	ikOps   []sim.Op
+	burners map[string]bool
+}
+
+func c11Features(rng *rand.Rand) features.FeatureSet {
+	fs := features.FeatureSet{}
+	keys := make([]string, 0, len(features.FeatureConfigurations))
+	for k := range features.FeatureConfigurations {
+		keys = append(keys, k)
+	}
+	sort.Strings(keys)
+	for _, k := range keys {
+		vals := features.FeatureConfigurations[k]
+		fs[k] = vals[rng.Intn(len(vals))]
+	}
+	if rng.Intn(3) > 0 {
+		fs[features.FeatureHashLogs] = "SYNC"
+	}
+	return fs
+}
+
+func (s *c11Source) apply(note string, op sim.Op) sim.Outcome {
+	out := s.e.Apply("src", op)
+	cp := op
+	oc := out.Class
+	if out.Hit {
+		oc += ":hit"
+	}
+	s.Steps = append(s.Steps, c11Step{Note: note, Op: &cp, Outcome: oc})
+	if out.OK() && out.Log != nil && !out.Hit && !op.DryRun {
+		s.types[out.Log.Type.String()] = true
+		if out.Created != nil {
+			s.st.TxIDs = append(s.st.TxIDs, *out.Created.Transaction.ID)
+			if op.Reference != "" {
+				s.refs = append(s.refs, op.Reference)
 			}
-			_ = json.Unmarshal(v.Data, &arr)
-			if len(arr) == 1 {
-				return arr[0].ID, ""
-			}
-			return 0, "unexpected v1 body " + string(r.Body)
 		}
-		_ = json.Unmarshal(v.Data, &one)
-		return one.ID, ""
-	default:
-		q := ""
-		if path == "bulk-atomic" {
-			q = "?atomic=true"
+		if out.Reverted != nil {
+			s.st.TxIDs = append(s.st.TxIDs, *out.Reverted.RevertTransaction.ID)
 		}
-		r := e.Do("POST", "/v2/"+name+"/_bulk"+q, []byte(`[{"action":"CREATE_TRANSACTION","data":`+body+`}]`), nil)
-		if r.Status != 200 {
-			if r.Status == 500 && len(r.Body) == 0 {
-				e.C.AbortAll()
-			}
-			return 0, fmt.Sprintf("status %d: %s", r.Status, r.Body)
+		if op.IK != "" {
+			s.ikOps = append(s.ikOps, op)
 		}
-		var v struct {
-			Data []struct {
-				Data struct {
-					ID uint64 `json:"id"`
-				} `json:"data"`
-				ResponseType string `json:"responseType"`
-				ErrorCode    string `json:"errorCode"`
-				ErrorDesc    string `json:"errorDescription"`
-			} `json:"data"`
+	}
+	return out
+}
+
+var c11ValidCreate = sim.Op{Kind: "postings", Postings: []sim.P{{Source: "world", Destination: "burn:er", Asset: "USD", Amount: "3"}}}
+
+// burn performs one operation that allocates ids from the sequences and then rolls back.
+func (s *c11Source) burn(where string) {
+	kinds := []string{"dry-run-create", "dry-run-account-metadata", "failed-atomic-bulk", "failed-commit", "dry-run-random-op", "reference-conflict", "dry-run-revert"}
+	k := kinds[s.rng.Intn(len(kinds))]
+	if k == "reference-conflict" && len(s.refs) == 0 {
+		k = "dry-run-create"
+	}
+	if k == "dry-run-revert" && len(s.st.TxIDs) == 0 {
+		k = "failed-commit"
+	}
+	s.burners[where+":"+k] = true
+	note := "burn(" + where + "):" + k
+	switch k {
+	case "dry-run-create":
+		op := c11ValidCreate
+		op.DryRun = true
+		s.apply(note, op)
+	case "dry-run-account-metadata":
+		s.apply(note, sim.Op{Kind: "save_acc_meta", Address: "burn:er", Metadata: map[string]string{"b": "1"}, DryRun: true})
+	case "dry-run-revert":
+		s.apply(note, sim.Op{Kind: "revert", TxID: s.st.TxIDs[s.rng.Intn(len(s.st.TxIDs))], Force: true, DryRun: true})
+	case "dry-run-random-op":
+		op := sim.GenOp(s.rng, s.st)
+		op.DryRun = true
+		op.IK = ""
+		s.apply(note, op)
+	case "reference-conflict":
+		op := c11ValidCreate
+		op.Reference = s.refs[s.rng.Intn(len(s.refs))]
+		s.apply(note, op)
+	case "failed-commit":
+		p := &sim.FaultPlan{N: 1, Kind: "commit-failure"}
+		un := p.Install(s.e)
+		s.apply(note, c11ValidCreate)
+		un()
+	case "failed-atomic-bulk":
+		body := `[{"action":"CREATE_TRANSACTION","data":{"postings":[{"source":"world","destination":"burn:er","asset":"USD","amount":3}]}},{"action":"ADD_METADATA","data":{"targetType":"ACCOUNT","targetId":"burn:er","metadata":{"b":"1"}}},{"action":"CREATE_TRANSACTION","data":{"postings":[{"source":"burn:empty","destination":"burn:er","asset":"USD","amount":3}]}}]`
+		r := s.e.Do("POST", "/v2/src/_bulk?atomic=true", []byte(body), nil)
+		if r.Status == 500 && len(r.Body) == 0 {
+			s.e.C.AbortAll()
 		}
-		_ = json.Unmarshal(r.Body, &v)
-		if len(v.Data) != 1 || v.Data[0].ErrorCode != "" {
-			return 0, "bulk element failed: " + string(r.Body)
-		}
-		return v.Data[0].Data.ID, ""
+		s.Steps = append(s.Steps, c11Step{Note: note + " POST /v2/src/_bulk?atomic=true " + body, Outcome: fmt.Sprint(r.Status)})
 	}
 }
 
+// c11Holes describes the id holes of a snapshot.
+type c11Holes struct {
+	LogFirstAbove1, LogMiddle, LogTrailing bool
+	TxFirstAbove1, TxMiddle, TxTrailing    bool
+}
+
+func c11HolesOf(s *memstore.Snap) c11Holes {
+	var h c11Holes
+	for i, l := range s.Logs {
+		if i == 0 && l.ID > 1 {
+			h.LogFirstAbove1 = true
+		}
+		if i > 0 && l.ID != s.Logs[i-1].ID+1 {
+			h.LogMiddle = true
+		}
+	}
+	if n := len(s.Logs); n > 0 && s.SeqLog > s.Logs[n-1].ID {
+		h.LogTrailing = true
+	}
+	for i, t := range s.Transactions {
+		if i == 0 && t.ID > 1 {
+			h.TxFirstAbove1 = true
+		}
+		if i > 0 && t.ID != s.Transactions[i-1].ID+1 {
+			h.TxMiddle = true
+		}
+	}
+	if n := len(s.Transactions); n > 0 && s.SeqTx > s.Transactions[n-1].ID {
+		h.TxTrailing = true
+	}
+	return h
+}
+
+// ---------------------------------------------------------------------------
+// post-import writes
+
+// c11Write is one request: a single operation through the controller / HTTP, or a bulk of operations.
+type c11Write struct {
+	Kind string   `json:"kind"`
+	Path string   `json:"path"` // controller, http, http-v1, bulk, bulk-atomic
+	Ops  []sim.Op `json:"ops"`
+}
+
+var c11Kinds = []string{"create", "script", "revert", "save_tx_meta", "del_tx_meta", "save_acc_meta", "del_acc_meta", "insert_schema",
+	"dry-run-create", "dry-run-revert", "failing-create", "failing-revert"}
+
+func c11PathsOf(kind string) []string {
+	switch kind {
+	case "create":
+		return []string{"controller", "http", "http-v1", "bulk", "bulk-atomic"}
+	case "insert_schema", "dry-run-create", "dry-run-revert":
+		return []string{"controller", "http"}
+	}
+	return []string{"controller", "http", "bulk", "bulk-atomic"}
+}
+
+type c11Pair struct{ Kind, Path string }
+
+var c11Pairs = func() []c11Pair {
+	var out []c11Pair
+	for _, k := range c11Kinds {
+		for _, p := range c11PathsOf(k) {
+			out = append(out, c11Pair{k, p})
+		}
+	}
+	return out
+}()
+
+// c11Cont is what the continuation generator knows about the imported ledger.
+type c11Cont struct {
+	rng      *rand.Rand
+	n        int
+	liveTx   []uint64            // imported, not reverted (as far as the generator knows)
+	allTx    []uint64            // imported
+	txKeys   map[uint64][]string // metadata keys of imported transactions
+	accounts []string
+	accKeys  map[string][]string
+	refs     []string // references used by continuation creates
+	ikOps    []sim.Op // imported operations with idempotency keys
+	ownIK    []c11Write
+}
+
+func c11NewCont(rng *rand.Rand, s *memstore.Snap, ikOps []sim.Op) *c11Cont {
+	c := &c11Cont{rng: rng, txKeys: map[uint64][]string{}, accKeys: map[string][]string{}, ikOps: ikOps}
+	for _, t := range s.Transactions {
+		c.allTx = append(c.allTx, t.ID)
+		if t.RevertedAt == "" {
+			c.liveTx = append(c.liveTx, t.ID)
+		}
+		for k := range t.Metadata {
+			if c11SimpleKey(k) {
+				c.txKeys[t.ID] = append(c.txKeys[t.ID], k)
+			}
+		}
+		sort.Strings(c.txKeys[t.ID])
+	}
+	for _, a := range s.Accounts {
+		c.accounts = append(c.accounts, a.Address)
+		for k := range a.Metadata {
+			if c11SimpleKey(k) {
+				c.accKeys[a.Address] = append(c.accKeys[a.Address], k)
+			}
+		}
+		sort.Strings(c.accKeys[a.Address])
+	}
+	return c
+}
+
+func c11SimpleKey(k string) bool {
+	if k == "" {
+		return false
+	}
+	for _, r := range k {
+		if !(r >= 'a' && r <= 'z' || r >= 'A' && r <= 'Z' || r >= '0' && r <= '9' || r == '_' || r == '-') {
+			return false
+		}
+	}
+	return true
+}
+
+var c11SchemaData = func() ledger.SchemaData {
+	var sd ledger.SchemaData
+	if err := json.Unmarshal([]byte(`{"chart":{"world":{},"post":{"$any":{}},"users":{"$id":{}}}}`), &sd); err != nil {
+		panic(err)
+	}
+	return sd
+}()
+
+func (c *c11Cont) pickTx(live bool) uint64 {
+	pool := c.allTx
+	if live {
+		pool = c.liveTx
+	}
+	if len(pool) == 0 {
+		return 424242
+	}
+	return pool[c.rng.Intn(len(pool))]
+}
+
+func (c *c11Cont) markReverted(id uint64) {
+	for i, x := range c.liveTx {
+		if x == id {
+			c.liveTx = append(append([]uint64{}, c.liveTx[:i]...), c.liveTx[i+1:]...)
+			return
+		}
+	}
+}
+
+func (c *c11Cont) op(kind string) sim.Op {
+	c.n++
+	rng := c.rng
+	switch kind {
+	case "create", "dry-run-create":
+		o := sim.Op{Kind: "postings", Postings: []sim.P{{Source: "world", Destination: fmt.Sprintf("post:import%d", c.n), Asset: "USD", Amount: fmt.Sprint(c.n)}}}
+		if rng.Intn(2) == 0 {
+			o.Metadata = map[string]string{"pi": fmt.Sprint(c.n)}
+		}
+		if kind == "dry-run-create" {
+			o.DryRun = true
+			return o
+		}
+		if rng.Intn(3) == 0 {
+			o.Reference = fmt.Sprintf("pi-ref-%d", c.n)
+			c.refs = append(c.refs, o.Reference)
+		}
+		if rng.Intn(4) == 0 {
+			o.IK = fmt.Sprintf("pi-ik-%d", c.n)
+		}
+		return o
+	case "reference-conflict":
+		o := sim.Op{Kind: "postings", Postings: []sim.P{{Source: "world", Destination: "post:dup", Asset: "USD", Amount: "1"}}}
+		o.Reference = c.refs[rng.Intn(len(c.refs))]
+		return o
+	case "script":
+		return sim.Op{Kind: "script", Plain: fmt.Sprintf("send [USD %d] (\n source = @world\n destination = @post:script\n)\nset_tx_meta(\"pi\", \"s\")\n", c.n)}
+	case "revert", "dry-run-revert":
+		o := sim.Op{Kind: "revert", TxID: c.pickTx(true), Force: true, AtEffectiveDate: rng.Intn(2) == 0}
+		if kind == "dry-run-revert" {
+			o.DryRun = true
+		} else {
+			c.markReverted(o.TxID)
+		}
+		return o
+	case "save_tx_meta":
+		return sim.Op{Kind: "save_tx_meta", TxID: c.pickTx(false), Metadata: map[string]string{"pi": fmt.Sprint(c.n)}}
+	case "del_tx_meta":
+		id := c.pickTx(false)
+		key := "absent"
+		if ks := c.txKeys[id]; len(ks) > 0 {
+			key = ks[rng.Intn(len(ks))]
+		}
+		return sim.Op{Kind: "del_tx_meta", TxID: id, Key: key}
+	case "save_acc_meta":
+		addr := "post:meta"
+		if len(c.accounts) > 0 && rng.Intn(3) > 0 {
+			addr = c.accounts[rng.Intn(len(c.accounts))]
+		}
+		return sim.Op{Kind: "save_acc_meta", Address: addr, Metadata: map[string]string{"pi": fmt.Sprint(c.n)}}
+	case "del_acc_meta":
+		addr, key := "post:meta", "absent"
+		if len(c.accounts) > 0 {
+			addr = c.accounts[rng.Intn(len(c.accounts))]
+			if ks := c.accKeys[addr]; len(ks) > 0 {
+				key = ks[rng.Intn(len(ks))]
+			}
+		}
+		return sim.Op{Kind: "del_acc_meta", Address: addr, Key: key}
+	case "insert_schema":
+		return sim.Op{Kind: "insert_schema", Version: fmt.Sprintf("pi-v%d", c.n), Schema: c11SchemaData}
+	case "failing-create":
+		return sim.Op{Kind: "postings", Postings: []sim.P{{Source: "post:empty", Destination: "post:nobody", Asset: "USD", Amount: "5"}}}
+	case "failing-revert":
+		return sim.Op{Kind: "revert", TxID: 999999}
+	}
+	panic(kind)
+}
+
+// write builds the request for (kind, path). A bulk gets, half of the time, a trailing always-valid create.
+func (c *c11Cont) write(kind, path string) c11Write {
+	w := c11Write{Kind: kind, Path: path, Ops: []sim.Op{c.op(kind)}}
+	if strings.HasPrefix(path, "bulk") && kind != "reference-conflict" && c.rng.Intn(2) == 0 {
+		o := c.op("create")
+		o.IK, o.Reference = "", ""
+		w.Ops = append(w.Ops, o)
+	}
+	if len(w.Ops) == 1 && w.Ops[0].IK != "" {
+		c.ownIK = append(c.ownIK, w)
+	}
+	return w
+}
+
+// later draws a follow-up write.
+func (c *c11Cont) later() c11Write {
+	rng := c.rng
+	switch x := rng.Intn(20); {
+	case x == 0 && len(c.refs) > 0:
+		return c.write("reference-conflict", []string{"controller", "http", "bulk", "bulk-atomic"}[rng.Intn(4)])
+	case x == 1 && len(c.ikOps) > 0:
+		// idempotent replay of an imported operation
+		return c11Write{Kind: "replay-imported-idempotency-key", Path: "controller", Ops: []sim.Op{c.ikOps[rng.Intn(len(c.ikOps))]}}
+	case x == 2 && len(c.ownIK) > 0:
+		w := c.ownIK[rng.Intn(len(c.ownIK))]
+		w.Kind = "replay-own-idempotency-key"
+		return w
+	}
+	k := c11Kinds[rng.Intn(len(c11Kinds))]
+	ps := c11PathsOf(k)
+	return c.write(k, ps[rng.Intn(len(ps))])
+}
+
+func c11CreateBody(o sim.Op) map[string]any {
+	b := map[string]any{}
+	if o.Kind == "postings" {
+		ps := make([]map[string]any, 0, len(o.Postings))
+		for _, p := range o.Postings {
+			ps = append(ps, map[string]any{"source": p.Source, "destination": p.Destination, "asset": p.Asset, "amount": json.Number(p.Amount)})
+		}
+		b["postings"] = ps
+	} else {
+		sc := map[string]any{"plain": o.Plain}
+		if o.Vars != nil {
+			sc["vars"] = o.Vars
+		}
+		b["script"] = sc
+	}
+	if o.Metadata != nil {
+		b["metadata"] = o.Metadata
+	}
+	if o.Reference != "" {
+		b["reference"] = o.Reference
+	}
+	if o.Timestamp != "" {
+		b["timestamp"] = o.Timestamp
+	}
+	return b
+}
+
+// c11HTTP maps an operation to its v2 (or, for creates, v1) request.
+func c11HTTP(name string, o sim.Op, v1 bool) (method, path string, body []byte, hdr map[string]string) {
+	q := url.Values{}
+	if o.DryRun {
+		q.Set("dryRun", "true")
+	}
+	if o.Force {
+		q.Set("force", "true")
+	}
+	hdr = map[string]string{}
+	if o.IK != "" {
+		hdr["Idempotency-Key"] = o.IK
+	}
+	base := "/v2/" + name
+	if v1 {
+		base = "/" + name
+	}
+	method = "POST"
+	switch o.Kind {
+	case "postings", "script":
+		path = base + "/transactions"
+		body, _ = json.Marshal(c11CreateBody(o))
+	case "revert":
+		path = fmt.Sprintf("%s/transactions/%d/revert", base, o.TxID)
+		if o.AtEffectiveDate {
+			q.Set("atEffectiveDate", "true")
+		}
+		if o.Metadata != nil {
+			body, _ = json.Marshal(map[string]any{"metadata": o.Metadata})
+		}
+	case "save_tx_meta":
+		path = fmt.Sprintf("%s/transactions/%d/metadata", base, o.TxID)
+		body, _ = json.Marshal(o.Metadata)
+	case "del_tx_meta":
+		method, path = "DELETE", fmt.Sprintf("%s/transactions/%d/metadata/%s", base, o.TxID, url.PathEscape(o.Key))
+	case "save_acc_meta":
+		path = fmt.Sprintf("%s/accounts/%s/metadata", base, o.Address)
+		body, _ = json.Marshal(o.Metadata)
+	case "del_acc_meta":
+		method, path = "DELETE", fmt.Sprintf("%s/accounts/%s/metadata/%s", base, o.Address, url.PathEscape(o.Key))
+	case "insert_schema":
+		path = fmt.Sprintf("%s/schemas/%s", base, o.Version)
+		body, _ = json.Marshal(o.Schema)
+	default:
+		panic(o.Kind)
+	}
+	if len(q) > 0 {
+		path += "?" + q.Encode()
+	}
+	return
+}
+
+func c11BulkElem(o sim.Op) map[string]any {
+	el := map[string]any{}
+	if o.IK != "" {
+		el["ik"] = o.IK
+	}
+	switch o.Kind {
+	case "postings", "script":
+		d := c11CreateBody(o)
+		if o.Force {
+			d["force"] = true
+		}
+		el["action"], el["data"] = "CREATE_TRANSACTION", d
+	case "revert":
+		d := map[string]any{"id": o.TxID, "force": o.Force, "atEffectiveDate": o.AtEffectiveDate}
+		if o.Metadata != nil {
+			d["metadata"] = o.Metadata
+		}
+		el["action"], el["data"] = "REVERT_TRANSACTION", d
+	case "save_tx_meta":
+		el["action"], el["data"] = "ADD_METADATA", map[string]any{"targetType": "TRANSACTION", "targetId": o.TxID, "metadata": o.Metadata}
+	case "save_acc_meta":
+		el["action"], el["data"] = "ADD_METADATA", map[string]any{"targetType": "ACCOUNT", "targetId": o.Address, "metadata": o.Metadata}
+	case "del_tx_meta":
+		el["action"], el["data"] = "DELETE_METADATA", map[string]any{"targetType": "TRANSACTION", "targetId": o.TxID, "key": o.Key}
+	case "del_acc_meta":
+		el["action"], el["data"] = "DELETE_METADATA", map[string]any{"targetType": "ACCOUNT", "targetId": o.Address, "key": o.Key}
+	default:
+		panic(o.Kind)
+	}
+	return el
+}
+
+// c11Exec performs w on the named ledger; returns an outcome string (comparable between ledgers) and the
+// transaction / log ids the response announced (0 when the response does not carry one).
+func c11Exec(e *sim.Env, name string, w c11Write) (status string, txID, logID uint64) {
+	switch w.Path {
+	case "controller":
+		out := e.Apply(name, w.Ops[0])
+		status = out.Class
+		if out.Hit {
+			status += ":hit"
+		}
+		if out.OK() {
+			if out.Created != nil {
+				txID = *out.Created.Transaction.ID
+			}
+			if out.Reverted != nil {
+				txID = *out.Reverted.RevertTransaction.ID
+			}
+			if out.Log != nil && out.Log.ID != nil {
+				logID = *out.Log.ID
+			}
+		}
+		return
+	case "http", "http-v1":
+		m, p, body, hdr := c11HTTP(name, w.Ops[0], w.Path == "http-v1")
+		r := e.Do(m, p, body, hdr)
+		if r.Status == 500 && len(r.Body) == 0 {
+			e.C.AbortAll()
+		}
+		var v struct {
+			Data      json.RawMessage `json:"data"`
+			ErrorCode string          `json:"errorCode"`
+		}
+		_ = json.Unmarshal(r.Body, &v)
+		status = fmt.Sprintf("%d:%s", r.Status, v.ErrorCode)
+		if r.Header.Get("Idempotency-Hit") != "" {
+			status += ":hit"
+		}
+		if r.Status/100 == 2 && len(v.Data) > 0 {
+			var one struct {
+				ID uint64 `json:"id"`
+			}
+			var arr []struct {
+				ID uint64 `json:"id"`
+			}
+			if json.Unmarshal(v.Data, &arr) == nil && len(arr) == 1 {
+				txID = arr[0].ID
+			} else if json.Unmarshal(v.Data, &one) == nil {
+				txID = one.ID
+			}
+		}
+		return
+	default:
+		els := make([]map[string]any, 0, len(w.Ops))
+		for _, o := range w.Ops {
+			els = append(els, c11BulkElem(o))
+		}
+		body, _ := json.Marshal(els)
+		q := ""
+		if w.Path == "bulk-atomic" {
+			q = "?atomic=true"
+		}
+		r := e.Do("POST", "/v2/"+name+"/_bulk"+q, body, nil)
+		if r.Status == 500 && len(r.Body) == 0 {
+			e.C.AbortAll()
+		}
+		var v struct {
+			Data []struct {
+				ErrorCode string `json:"errorCode"`
+				LogID     uint64 `json:"logID"`
+			} `json:"data"`
+			ErrorCode string `json:"errorCode"`
+		}
+		_ = json.Unmarshal(r.Body, &v)
+		status = fmt.Sprintf("%d:%s", r.Status, v.ErrorCode)
+		for _, d := range v.Data {
+			if d.ErrorCode != "" {
+				status += ":" + d.ErrorCode
+			} else {
+				status += ":ok"
+			}
+		}
+		return
+	}
+}
+
+func c11MaxIDs(s *memstore.Snap) (tx, log uint64) {
+	for _, t := range s.Transactions {
+		if t.ID > tx {
+			tx = t.ID
+		}
+	}
+	for _, l := range s.Logs {
+		if l.ID > log {
+			log = l.ID
+		}
+	}
+	return
+}
+
+// c11NewIDs: ids present in after and not in before.
+func c11NewIDs(before, after *memstore.Snap) (txs, logs []uint64) {
+	bt := map[uint64]bool{}
+	for _, t := range before.Transactions {
+		bt[t.ID] = true
+	}
+	for _, t := range after.Transactions {
+		if !bt[t.ID] {
+			txs = append(txs, t.ID)
+		}
+	}
+	bl := map[uint64]bool{}
+	for _, l := range before.Logs {
+		bl[l.ID] = true
+	}
+	for _, l := range after.Logs {
+		if !bl[l.ID] {
+			logs = append(logs, l.ID)
+		}
+	}
+	return
+}
+
+// c11Bases: the values the id sequences effectively start from for the next write. A ledger still
+// "initializing" resynchronises both sequences to max(id) (when there are rows) before its first write.
+func c11Bases(s *memstore.Snap) (tx, log uint64) {
+	tx, log = s.SeqTx, s.SeqLog
+	if s.State == "initializing" {
+		mt, ml := c11MaxIDs(s)
+		if len(s.Transactions) > 0 {
+			tx = mt
+		}
+		if len(s.Logs) > 0 {
+			log = ml
+		}
+	}
+	return
+}
+
+func c11Rel(ids []uint64, base uint64) []int64 {
+	out := make([]int64, len(ids))
+	for i, id := range ids {
+		out[i] = int64(id) - int64(base)
+	}
+	return out
+}
+
+// c11Reduced: clock-independent view of a ledger after the continuation; transactions and logs that are
+// not part of the imported set are numbered by rank.
+func c11Reduced(s *memstore.Snap, imported *memstore.Snap) []string {
+	it, il := map[uint64]bool{}, map[uint64]bool{}
+	for _, t := range imported.Transactions {
+		it[t.ID] = true
+	}
+	for _, l := range imported.Logs {
+		il[l.ID] = true
+	}
+	var out []string
+	out = append(out, "state="+s.State)
+	n := 0
+	for _, t := range s.Transactions {
+		label := fmt.Sprint(t.ID)
+		ts := t.Timestamp
+		if !it[t.ID] {
+			n++
+			label = fmt.Sprintf("new#%d", n)
+			ts = ""
+		}
+		md, _ := json.Marshal(t.Metadata)
+		out = append(out, fmt.Sprintf("tx %s %v md=%s ref=%q reverted=%v ts=%s", label, t.Postings, md, t.Reference, t.RevertedAt != "", ts))
+	}
+	n = 0
+	for _, l := range s.Logs {
+		if il[l.ID] {
+			out = append(out, fmt.Sprintf("log %d %s ik=%q schema=%q hash=%s", l.ID, l.Type, l.IK, l.Schema, l.Hash))
+			continue
+		}
+		n++
+		out = append(out, fmt.Sprintf("log new#%d %s ik=%q schema=%q", n, l.Type, l.IK, l.Schema))
+	}
+	for _, a := range s.Accounts {
+		md, _ := json.Marshal(a.Metadata)
+		out = append(out, fmt.Sprintf("account %s md=%s", a.Address, md))
+	}
+	for _, v := range s.Volumes {
+		if v.Input != "0" || v.Output != "0" {
+			out = append(out, fmt.Sprintf("volumes %s %s %s/%s", v.Account, v.Asset, v.Input, v.Output))
+		}
+	}
+	out = append(out, "schemas="+strings.Join(s.Schemas, ","))
+	return out
+}
+
 func runC11(r *core.Run) {
-	n := r.N(60, 1500)
-	r.Floor("imports_compared", int64(n))
+	n := r.N(4*len(c11Pairs), 70*len(c11Pairs))
+	r.Floor("imports_compared", int64(n*8/10))
+	r.Floor("histories_with_log_id_hole_in_the_middle", int64(n/4))
+	r.Floor("histories_with_first_log_id_above_1", int64(n/6))
+	r.Floor("first_write_kinds", int64(len(c11Pairs)))
 	r.ForEach("hist", n, 0, func(c *core.Case) {
 		rng := c.Rng
 		e := sim.NewEnv(sim.Options{})
 		defer e.Close()
-		fs := randFeatures(rng)
-		if rng.Intn(3) > 0 {
-			fs[features.FeatureHashLogs] = "SYNC"
-		}
+		fs := c11Features(rng)
 		if err := e.CreateLedger("src", "_default", fs); err != nil {
 			r.Inconclusive(err.Error())
 			return
 		}
-		m := sim.NewMirror(e, "src")
-		m.FullReadEvery = 0
-		st := &sim.GenState{}
+		pair := c11Pairs[c.Index%len(c11Pairs)]
+		src := &c11Source{e: e, rng: rng, st: &sim.GenState{}, types: map[string]bool{}, burners: map[string]bool{}}
+		// ---- source history, with id-burning operations at the beginning, in the middle, at the end
+		if rng.Intn(5) < 3 {
+			for i := 0; i <= rng.Intn(2); i++ {
+				src.burn("begin")
+			}
+		}
 		nops := 4 + rng.Intn(r.N(25, 40))
-		types := map[string]bool{}
 		for i := 0; i < nops; i++ {
-			op := sim.GenOp(rng, st)
-			out := m.Step(op)
-			if out.OK() && out.Log != nil && !out.Hit {
-				types[out.Log.Type.String()] = true
-				if out.Created != nil {
-					st.TxIDs = append(st.TxIDs, *out.Created.Transaction.ID)
-				}
-				if out.Reverted != nil {
-					st.TxIDs = append(st.TxIDs, *out.Reverted.RevertTransaction.ID)
-				}
+			if i > 0 && rng.Intn(6) == 0 {
+				src.burn("middle")
+			}
+			src.apply("", sim.GenOp(rng, src.st))
+		}
+		needsTx := pair.Kind == "revert" || pair.Kind == "dry-run-revert" || pair.Kind == "save_tx_meta" || pair.Kind == "del_tx_meta"
+		if live := c11NewCont(rng, e.C.Snapshot("src"), nil).liveTx; needsTx && len(live) == 0 {
+			src.apply("guarantee-a-revertible-transaction", sim.Op{Kind: "postings", Postings: []sim.P{{Source: "world", Destination: "users:001", Asset: "USD", Amount: "12"}}, Metadata: map[string]string{"k1": "v"}})
+		}
+		if rng.Intn(2) == 0 {
+			for i := 0; i <= rng.Intn(2); i++ {
+				src.burn("end")
 			}
 		}
 		exp := e.Do("POST", "/v2/src/logs/export", nil, nil)
+		detail := func(extra map[string]any) map[string]any {
+			d := map[string]any{"features": fs.String(), "source_history": src.Steps, "export": string(exp.Body), "first_write": pair}
+			for k, v := range extra {
+				d[k] = v
+			}
+			return d
+		}
 		if exp.Status != 200 {
-			c.Violation("C11/export-failed", map[string]any{"status": exp.Status, "body": string(exp.Body), "history": m.History})
+			c.Violation("C11/export-failed", detail(map[string]any{"status": exp.Status, "body": string(exp.Body)}))
 			return
 		}
-		src := e.C.Snapshot("src")
-		path := c11Paths[c.Index%len(c11Paths)]
-		r.Eval(fmt.Sprintf("%d logs %v|%s", len(src.Logs), len(types), path), len(src.Logs) >= 3 && len(types) >= 2)
-		r.Seen("first_write_paths", path)
-		for t := range types {
+		srcSnap := e.C.Snapshot("src")
+		holes := c11HolesOf(srcSnap)
+		for name, b := range map[string]bool{
+			"histories_with_log_id_holes":                       holes.LogFirstAbove1 || holes.LogMiddle,
+			"histories_with_first_log_id_above_1":               holes.LogFirstAbove1,
+			"histories_with_log_id_hole_in_the_middle":          holes.LogMiddle,
+			"histories_with_burnt_log_ids_after_the_last_log":   holes.LogTrailing,
+			"histories_with_transaction_id_holes":               holes.TxFirstAbove1 || holes.TxMiddle,
+			"histories_with_first_transaction_id_above_1":       holes.TxFirstAbove1,
+			"histories_with_burnt_transaction_ids_after_the_last": holes.TxTrailing,
+		} {
+			if b {
+				r.Count(name, 1)
+			}
+		}
+		for b := range src.burners {
+			r.Seen("id_burning_operations", b)
+		}
+		r.Eval(fmt.Sprintf("%d logs %v|holes=%v|%s via %s", len(srcSnap.Logs), len(src.types), holes.LogFirstAbove1 || holes.LogMiddle, pair.Kind, pair.Path), len(srcSnap.Logs) >= 3 && len(src.types) >= 2)
+		for t := range src.types {
 			r.Seen("log_types_exported", t)
 		}
 		bucket := "_default"
@@ -229,75 +860,173 @@ func runC11(r *core.Run) {
 			return
 		}
 		imp := e.Do("POST", "/v2/dst/logs/import", exp.Body, map[string]string{"Content-Type": "application/octet-stream"})
-		detail := func(extra map[string]any) map[string]any {
-			d := map[string]any{"features": fmt.Sprint(fs), "history": m.History, "export": string(exp.Body), "first_write_path": path}
-			for k, v := range extra {
-				d[k] = v
-			}
-			return d
+		if imp.Status == 500 && len(imp.Body) == 0 {
+			e.C.AbortAll()
+		}
+		holeClass := "contiguous-ids"
+		if holes.LogFirstAbove1 || holes.LogMiddle {
+			holeClass = "log-ids-with-holes"
 		}
 		if imp.Status != 204 {
-			if len(src.Logs) == 0 {
+			if len(srcSnap.Logs) == 0 {
 				return
 			}
-			c.Violation("C11/import-of-own-export-rejected:"+errCode(imp.Body), detail(map[string]any{"status": imp.Status, "body": string(imp.Body)}))
+			c.Violation("C11/import-of-own-export-rejected:"+holeClass+":"+errCode(imp.Body), detail(map[string]any{"status": imp.Status, "body": string(imp.Body), "holes": holes}))
 			return
 		}
 		r.Count("imports_compared", 1)
-		r.Count("logs_imported", int64(len(src.Logs)))
-		dst := e.C.Snapshot("dst")
-		if d := diffSnap(src, dst); len(d) > 0 {
-			c.Violation("C11/copy-differs:"+strings.SplitN(d[0], ": ", 2)[0], detail(map[string]any{"diff": d}))
+		r.Count("logs_imported", int64(len(srcSnap.Logs)))
+		dstSnap := e.C.Snapshot("dst")
+		if d := diffSnap(srcSnap, dstSnap); len(d) > 0 {
+			cls := strings.SplitN(d[0], ": ", 2)[0]
+			c.Violation("C11/copy-differs:"+cls, detail(map[string]any{"diff": d, "generation": 1}))
+			if !(len(d) == 1 && cls == c11KnownFirstUsage) {
+				return
+			}
+		}
+		if exp2 := e.Do("POST", "/v2/dst/logs/export", nil, nil); exp2.Status != 200 || string(exp2.Body) != string(exp.Body) {
+			c.Violation("C11/export-of-the-copy-differs-from-the-export-of-the-source", detail(map[string]any{"status": exp2.Status, "export_of_copy": string(exp2.Body)}))
 			return
 		}
+		if dstSnap.State != "initializing" {
+			c.Violation("C11/imported-ledger-not-left-initializing", detail(map[string]any{"state": dstSnap.State}))
+		}
 		if c.Index < 2 {
-			r.Sample(map[string]any{"features": fmt.Sprint(fs), "logs": len(src.Logs), "first_write_path": path, "export_first_line": firstLine(string(exp.Body))})
+			r.Sample(map[string]any{"features": fs.String(), "logs": len(srcSnap.Logs), "first_write": pair, "holes": holes, "export_first_line": firstLine(string(exp.Body))})
 		}
-		// post-import writes
-		var maxTx, maxLog uint64
-		for _, t := range dst.Transactions {
-			if t.ID > maxTx {
-				maxTx = t.ID
-			}
+
+		// ---- post-import continuation: the same writes on the copy and on the source
+		cont := c11NewCont(rng, srcSnap, src.ikOps)
+		var writes []c11Write
+		first := cont.write(pair.Kind, pair.Path)
+		writes = append(writes, first)
+		effective := !(strings.HasPrefix(pair.Kind, "dry-run") || strings.HasPrefix(pair.Kind, "failing"))
+		if !effective && rng.Intn(2) == 0 && len(cont.liveTx) > 0 {
+			// the first write left the copy initializing: the effective first write is a revert
+			writes = append(writes, cont.write("revert", []string{"controller", "http", "bulk", "bulk-atomic"}[rng.Intn(4)]))
 		}
-		for _, l := range dst.Logs {
-			if l.ID > maxLog {
-				maxLog = l.ID
-			}
+		for i, nl := 0, 2+rng.Intn(4); i < nl; i++ {
+			writes = append(writes, cont.later())
 		}
-		seq := []string{path}
-		for i := 0; i < 3; i++ {
-			seq = append(seq, c11Paths[rng.Intn(len(c11Paths))])
+		r.Seen("first_write_kinds", pair.Kind+" via "+pair.Path)
+		firstSig := pair.Kind + "-via-" + pair.Path
+		sawCommit := false
+		type step struct {
+			Write     c11Write `json:"write"`
+			OnSource  string   `json:"outcome_on_source"`
+			OnCopy    string   `json:"outcome_on_copy"`
+			NewSource string   `json:"new_ids_on_source"`
+			NewCopy   string   `json:"new_ids_on_copy"`
 		}
-		for i, p := range seq {
-			id, errText := c11Write(e, "dst", p, i+1)
-			r.Count("post_import_writes", 1)
+		var trace []step
+		for i, w := range writes {
 			which := "later"
 			if i == 0 {
 				which = "first"
 			}
-			if errText != "" {
-				c.Violation(fmt.Sprintf("C11/post-import-write-failed:%s-write-via-%s", which, p), detail(map[string]any{"error": errText, "sequence": seq[:i+1], "max_imported_tx": maxTx}))
+			sb, db := e.C.Snapshot("src"), e.C.Snapshot("dst")
+			so, _, _ := c11Exec(e, "src", w)
+			do, dTx, dLog := c11Exec(e, "dst", w)
+			sa, da := e.C.Snapshot("src"), e.C.Snapshot("dst")
+			r.Count("post_import_writes", 1)
+			r.Seen("post_import_write_kinds", w.Kind+" via "+w.Path)
+			r.Seen("post_import_outcomes", w.Kind+" via "+w.Path+" => "+do)
+			sTxs, sLogs := c11NewIDs(sb, sa)
+			dTxs, dLogs := c11NewIDs(db, da)
+			sbt, sbl := c11Bases(sb)
+			dbt, dbl := c11Bases(db)
+			trace = append(trace, step{w, so, do, fmt.Sprintf("tx %v (sequence at %d) log %v (sequence at %d)", sTxs, sbt, sLogs, sbl),
+				fmt.Sprintf("tx %v (sequence at %d, state %s) log %v (sequence at %d)", dTxs, dbt, db.State, dLogs, dbl)})
+			vd := func(extra map[string]any) map[string]any {
+				m := detail(map[string]any{"continuation": trace, "max_imported_ids": fmt.Sprint(c11MaxIDs(dstSnap))})
+				for k, v := range extra {
+					m[k] = v
+				}
+				return m
+			}
+			where := fmt.Sprintf("%s-write:%s-via-%s:first-write=%s", which, w.Kind, w.Path, firstSig)
+			if so != do {
+				c.Violation("C11/post-import-write-outcome-differs-from-source:"+where, vd(nil))
 				return
 			}
-			if id <= maxTx {
-				c.Violation(fmt.Sprintf("C11/post-import-write-reused-id:%s-write-via-%s", which, p), detail(map[string]any{"id": id, "max_imported_tx": maxTx, "sequence": seq[:i+1]}))
+			mt, ml := c11MaxIDs(db)
+			for _, id := range dTxs {
+				if id <= mt {
+					c.Violation("C11/post-import-write-used-a-transaction-id-not-above-the-existing-ones:"+where, vd(map[string]any{"id": id, "max_existing": mt}))
+					return
+				}
+			}
+			for _, id := range dLogs {
+				if id <= ml {
+					c.Violation("C11/post-import-write-used-a-log-id-not-above-the-existing-ones:"+where, vd(map[string]any{"id": id, "max_existing": ml}))
+					return
+				}
+			}
+			if fmt.Sprint(c11Rel(sTxs, sbt)) != fmt.Sprint(c11Rel(dTxs, dbt)) {
+				c.Violation("C11/post-import-transaction-ids-do-not-continue-like-the-source:"+where, vd(nil))
 				return
 			}
-			maxTx = id
-		}
-		after := e.C.Snapshot("dst")
-		if len(after.Logs) != len(dst.Logs)+len(seq) {
-			c.Violation("C11/post-import-log-count", detail(map[string]any{"before": len(dst.Logs), "after": len(after.Logs), "writes": len(seq)}))
-		}
-		for _, l := range after.Logs[len(dst.Logs):] {
-			if l.ID <= maxLog {
-				c.Violation("C11/post-import-log-id-collides", detail(map[string]any{"id": l.ID, "max_imported_log": maxLog}))
+			if fmt.Sprint(c11Rel(sLogs, sbl)) != fmt.Sprint(c11Rel(dLogs, dbl)) {
+				c.Violation("C11/post-import-log-ids-do-not-continue-like-the-source:"+where, vd(nil))
+				return
 			}
-			maxLog = l.ID
+			if dTx != 0 && !w.Ops[0].DryRun && !strings.HasSuffix(do, ":hit") && (len(dTxs) == 0 || dTxs[0] != dTx) {
+				c.Violation("C11/post-import-write-announced-an-id-it-did-not-store:"+where, vd(map[string]any{"announced_tx": dTx, "announced_log": dLog}))
+				return
+			}
+			if len(dLogs) > 0 {
+				sawCommit = true
+			}
+			if sawCommit && da.State != "in-use" {
+				c.Violation("C11/ledger-still-initializing-after-a-committed-write:"+where, vd(map[string]any{"state": da.State}))
+				return
+			}
+			if !sawCommit && da.State != "initializing" {
+				c.Violation("C11/ledger-in-use-although-nothing-was-committed:"+where, vd(map[string]any{"state": da.State}))
+				return
+			}
 		}
-		if e.C.LedgerState("dst") != "in-use" {
-			c.Violation("C11/ledger-still-initializing-after-writes:first-write-via-"+path, detail(map[string]any{"sequence": seq}))
+		r.Count("continuations_compared", 1)
+		srcAfter, dstAfter := e.C.Snapshot("src"), e.C.Snapshot("dst")
+		ra, rb := c11Reduced(srcAfter, srcSnap), c11Reduced(dstAfter, srcSnap)
+		if strings.Join(ra, "\n") != strings.Join(rb, "\n") {
+			var diff []string
+			for i := 0; i < len(ra) || i < len(rb); i++ {
+				x, y := "", ""
+				if i < len(ra) {
+					x = ra[i]
+				}
+				if i < len(rb) {
+					y = rb[i]
+				}
+				if x != y {
+					diff = append(diff, "source: "+x+" | copy: "+y)
+					if len(diff) > 5 {
+						break
+					}
+				}
+			}
+			c.Violation("C11/state-after-continuation-differs-from-source:first-write="+firstSig, detail(map[string]any{"continuation": trace, "diff": diff}))
+			return
+		}
+
+		// ---- second generation: the copy, after its own writes, exports and imports like any ledger
+		exp3 := e.Do("POST", "/v2/dst/logs/export", nil, nil)
+		if err := e.CreateLedger("dst2", "gen2", fs); err != nil {
+			r.Inconclusive(err.Error())
+			return
+		}
+		imp3 := e.Do("POST", "/v2/dst2/logs/import", exp3.Body, map[string]string{"Content-Type": "application/octet-stream"})
+		if imp3.Status == 500 && len(imp3.Body) == 0 {
+			e.C.AbortAll()
+		}
+		if imp3.Status != 204 {
+			c.Violation("C11/import-of-own-export-rejected:second-generation:"+errCode(imp3.Body), detail(map[string]any{"continuation": trace, "status": imp3.Status, "body": string(imp3.Body), "export_of_copy": string(exp3.Body)}))
+			return
+		}
+		r.Count("second_generation_imports_compared", 1)
+		if d := diffSnap(dstAfter, e.C.Snapshot("dst2")); len(d) > 0 {
+			c.Violation("C11/copy-differs:"+strings.SplitN(d[0], ": ", 2)[0], detail(map[string]any{"continuation": trace, "diff": d, "generation": 2}))
 		}
 	})
 }
@@ -334,5 +1063,3 @@ func errCode(body []byte) string {
 	}
 	return v.ErrorCode + ":" + clean
 }
-
-var _ = rand.Int
